@@ -98,7 +98,7 @@ def run(d, pids, jobs=os.environ.get("SEEDED_JOBS", "6")):
     try:
         for pid in pids:
             t0 = time.time()
-            p = subprocess.run(["python3", os.path.join(VERIF, "check.py"), pid, "--tier", "quick", "--jobs", jobs],
+            p = subprocess.run(["python3", os.path.join(VERIF, "check.py"), pid, "--tier", os.environ.get("SEEDED_TIER", "quick"), "--jobs", jobs],
                                stdout=subprocess.PIPE, stderr=subprocess.STDOUT, text=True, env=env, timeout=4 * 3600)
             rc, o = p.returncode, p.stdout
             lines = [l for l in o.splitlines() if l.startswith(("VIOLATION", "INCONCLUSIVE", "harness ", "  reproduced"))]
@@ -107,6 +107,10 @@ def run(d, pids, jobs=os.environ.get("SEEDED_JOBS", "6")):
             runs[pid] = {"exit": rc, "detected": rc == 1 and any(l.startswith("VIOLATION") for l in lines),
                          "wall_s": round(time.time() - t0), "lines": [l[:300].replace(out, "/verif") for l in lines[:8]],
                          "verif_commit": sh(["git", "-C", VERIF, "rev-parse", "--short", "HEAD"])[1].strip()}
+            if os.environ.get("VERIF_ONLY"):
+                runs[pid]["restricted_to_harnesses_matching"] = os.environ["VERIF_ONLY"]
+            if os.environ.get("SEEDED_TIER"):
+                runs[pid]["tier"] = os.environ["SEEDED_TIER"]
             print(name, pid, "exit", rc, "DETECTED" if runs[pid]["detected"] else "MISSED", "%ds" % runs[pid]["wall_s"], flush=True)
             for l in lines[:5]:
                 print("   ", l[:220], flush=True)
@@ -152,4 +156,8 @@ if __name__ == "__main__" and sys.argv[1] == "import2":
     confirm(d)
 if __name__ == "__main__" and sys.argv[1] == "import3":
     d = imp(sys.argv[2], sys.argv[3], root="/tmp/wt3", name={"A": "C", "B": "D"}[sys.argv[3]])
+    confirm(d)
+if __name__ == "__main__" and sys.argv[1] == "import4":
+    # fourth round: /tmp/wt4/<pid>/out/A|B  ->  seeded/<pid>-E|F
+    d = imp(sys.argv[2], sys.argv[3], root="/tmp/wt4", name={"A": "E", "B": "F"}[sys.argv[3]])
     confirm(d)
